@@ -28,8 +28,9 @@ RULE = ("histories of offer(kind, metadata, spec) / delete(kind, name[, version]
         "13-letter alphabet plus random histories of <= 30 ops; every prefix is compared; a history is non-trivial "
         "when some key is offered under >= 2 versions and something is deleted; distinct by content")
 ASSUMPTIONS = [
-    "offers declare no dependencies (preparer returns (value, None), (value, []) or a non-Ok outcome): no re-prepare "
-    "task exists, so cache entries change only through prepare_and_cache / delete_from_cache (C16 covers the rest)",
+    "model and correspondence: offers declare no dependencies (preparer returns (value, None), (value, []) or a non-Ok "
+    "outcome): no re-prepare task exists, so cache entries change only through prepare_and_cache / delete_from_cache "
+    "(C16 covers the rest); offers WITH dependencies and background re-prepares are judged by an oracle-only stream",
     "the preparer honours its contract: it returns a 2-tuple when its outcome is Ok (a bare Ok value cannot be unpacked)",
     "resource names and versions are non-empty strings (anything falsy is rejected with TypeError by _extract_meta)",
     "operations of one history run sequentially (each call is awaited before the next starts)",
